@@ -4,6 +4,7 @@ package c15
 
 import (
 	"fmt"
+	"github.com/platinummonkey/go-concurrency-limits/measurements"
 	mrand "math/rand"
 	"math/rand/v2"
 	"testing"
@@ -55,6 +56,11 @@ func TestCheck(t *testing.T) {
 				l = limit.NewVegasLimitWithRegistry("c15", -1, nil, -1, -1, nil, nil, nil, nil, nil, 0, nil, nil)
 			}
 			rt.Count("cases_with_default_probe_multiplier/"+ctor, 1)
+		} else if spec.Kind == "vegas" && r.IntN(3) == 0 {
+			// the caller supplies the measurement object that holds the baseline (a constructor argument)
+			ctor = "WithRegistry(rttNoLoad supplied by the caller)"
+			l = limit.NewVegasLimitWithRegistry("c15", spec.Initial, &measurements.MinimumMeasurement{}, spec.Max, spec.Smoothing, nil, nil, nil, nil, nil, spec.ProbeMult, nil, nil)
+			rt.Count("cases_with_caller_supplied_baseline_measurement", 1)
 		}
 		nl := l.(limgen.NoLoader)
 		n := 1500 + r.IntN(2500)
